@@ -17,8 +17,10 @@ def c47_runs(tier):
     add(1, 'pool', 'qqqqq', budget=60)
     add(1, 'sets', 'qB2qB1q', budget=90)
     # sanitizer legs (early, so that a tier cut short by machine load still has them)
-    add(1, 'sets', 'qB2q', caller='ext', bound=1, mode='tsan', budget=150)
-    add(1, 'ctsl', 'B2q', caller='pool', bound=1, mode='asan', budget=150)
+    add(1, 'ts', 'qB2', caller='ext', bound=1, mode='tsan', budget=90)
+    add(1, 'ctsl', 'B2q', caller='pool', bound=1, mode='asan', budget=90)
+    if not quick:
+        add(1, 'sets', 'qB2q', caller='ext', bound=1, mode='tsan', budget=200)
     # n=2: beyond the factors
     add(2, 'pool', 'qqqq', caller='ext', budget=120)
     add(2, 'ts', 'B3q', caller='ext', budget=120)
@@ -33,7 +35,7 @@ def c47_runs(tier):
     # n=2, far beyond every factor
     add(2, 'pool', 'qqqqqqq', caller='ext', budget=120)
     add(2, 'pool', 'qqqqqqq', caller='pool', budget=120)
-    add(2, 'sets', 'qB3qB2q', caller='pool', budget=150)
+    add(2, 'ctsh' if quick else 'sets', 'qB3qB2q', caller='pool', budget=150)
     add(2, 'ts', 'qB3qB2q', caller='ext', budget=150)
     if not quick:
         # bound 2 on the shortest programs (first: they are what thorough adds)
